@@ -78,7 +78,7 @@ func jobs(id, tier string) []job {
 	case "C01":
 		opt.Writes = true
 		if tier == "quick" {
-			plans = []plan{{[]int{7}, 8}, {[]int{3, 4}, 8}, {[]int{2, 3, 4}, 8}, {[]int{2, 2, 2, 3}, 8}}
+			plans = []plan{{[]int{7}, 8}, {[]int{3, 4}, 8}, {[]int{2, 3, 4}, 8}, {[]int{2, 2, 2, 3}, 8}, {[]int{4, 5}, 8}}
 		} else {
 			plans = []plan{{[]int{7}, 8}, {[]int{3, 4}, 8}, {[]int{2, 3, 4}, 8}, {[]int{2, 2, 2, 3}, 8}, {[]int{10}, 8}, {[]int{4, 5}, 8}, {[]int{3, 3, 3}, 8}}
 		}
